@@ -8,5 +8,5 @@ CONSTANTS
   RenameFirst = FALSE
   InPlace = TRUE
   NUploads = 2
-INVARIANTS Follows Atomic Durable
+INVARIANTS Follows FactorOK Atomic Durable
 CHECK_DEADLOCK FALSE
